@@ -193,16 +193,38 @@ def v4_keys(ctx, rid='V4'):
         if 'variable_name' not in k and 'String::new' not in k and 'push_str' not in k:
             pass
     c = ctx.facts.find(r'^<variable::VariableInfo as alloc::string::ToString>::to_string::\{closure#0\}$')
-    if len(c) != 1:
-        raise AnchorLost('VariableInfo::to_string closure not found')
-    r = render(c[0].local_expr(0), transparent=False)
-    if 'to_lowercase' in r:
-        ctx.ok(rid, 'VariableInfo::to_string lower-cases every token', 'shape', site=c[0].loc)
+    disp = ctx.facts.find(r'^<variable::VariableInfo as core::fmt::Display>::fmt$')
+    if len(c) == 1:
+        r = render(c[0].local_expr(0), transparent=False)
+        if 'to_lowercase' in r:
+            ctx.ok(rid, 'VariableInfo::to_string lower-cases every token', 'shape', site=c[0].loc)
+        else:
+            ctx.finding(rid, 'VariableInfo::to_string/not-lowercased', 'the map key of a binding is built as %s' % r[:100], site=c[0].loc)
+    elif len(disp) == 1:
+        # the key text is what Display writes (to_string() is then the blanket impl): every piece written is lower-cased
+        d_ = disp[0]
+        ctx.fn(d_)
+        writes = list(d_.calls(r'fmt::Formatter::<.*>::write_str$|fmt::Write>?::write_str$|Formatter::<.*>::write_fmt$|fmt::Write>?::write_fmt$|Formatter::<.*>::pad$|fmt::Write>?::write_char$'))
+        if not writes:
+            raise AnchorLost('VariableInfo as Display: no write found')
+        bad = [t for bid, t in writes if not (t['callee']['path'].endswith('write_str') and always_through(d_.expr(t['args'][1]), r'::to_lowercase$'))]
+        if bad:
+            ctx.finding(rid, 'VariableInfo::to_string/not-lowercased', 'the map key of a binding (Display of VariableInfo) writes %s without lower-casing' % render(d_.expr(bad[0]['args'][1]))[:100], site=bad[0]['loc'])
+        else:
+            ctx.ok(rid, 'Display of VariableInfo writes lower-cased token texts only', 'shape', site=d_.loc)
     else:
-        ctx.finding(rid, 'VariableInfo::to_string/not-lowercased', 'the map key of a binding is built as %s' % r[:100], site=c[0].loc)
+        raise AnchorLost('VariableInfo::to_string closure not found')
     a = ctx.facts.body('session::Session::add_variable')
     ins = list(a.calls(r'BTreeMap::<.*>::insert$'))
-    if len(ins) != 1 or not any(x[0] == 'call' and re.search(r'variable::VariableInfo as alloc::string::ToString>::to_string$', x[1]) for x in walk(a.expr(ins[0][1]['args'][1]))):
+
+    def keyed_by_to_string(x):
+        if x[0] != 'call':
+            return False
+        if re.search(r'variable::VariableInfo as alloc::string::ToString>::to_string$', x[1]):
+            return True
+        gen = ((x[3].get('callee') or {}).get('gen') or []) if isinstance(x[3], dict) else []
+        return bool(re.search(r'ToString>::to_string$', x[1]) and any(re.search(r'variable::VariableInfo>?$', str(g)) for g in gen))
+    if len(ins) != 1 or not any(keyed_by_to_string(x) for x in walk(a.expr(ins[0][1]['args'][1]))):
         ctx.finding(rid, 'add_variable/key', 'add_variable does not key the binding by VariableInfo::to_string', site=a.loc)
     else:
         ctx.ok(rid, 'add_variable keys by variable_info.to_string()', 'wiring', site=ins[0][1]['loc'])
